@@ -8,7 +8,7 @@ from checks import c13 as C13
 TRUST = ("Lean 4.33 kernel; axioms at most propext/Classical.choice/Quot.sound (audited per run); "
          "hand-written selection model tied to the C++ by the exact correspondence harness (differential, generator-bounded); ")
 MANIFEST = dict(
-  text=("Theorems (Props/C14.lean, 20) about executable Lean models tied to the real classes. Selection: for every rank vector (duplicates, single front, "
+  text=("Theorems (Props/C14.lean, 19) about executable Lean models tied to the real classes. Selection: for every rank vector (duplicates, single front, "
         "mu = n), every 1 <= mu <= n, IndicatorBasedSelection marks exactly mu individuals, never keeps a worse non-domination rank while discarding a "
         "better one, keeps whole better fronts; the hypothesis 'the indicator returns K distinct positions of the front' is now DISCHARGED for the modelled "
         "indicators: the leastContributors loop shared by HypervolumeIndicator / CrowdingDistance / AdditiveEpsilonIndicator returns K distinct positions for "
